@@ -7,7 +7,7 @@ from sympy.printing.pycode import PythonCodePrinter
 from sympy.codegen.ast import Assignment
 import sympy
 import structlog
-from functools import partial
+from functools import partial, reduce
 
 from ..ode import ODE
 from .. import templates
@@ -91,24 +91,21 @@ class GotranPythonCodePrinter(PythonCodePrinter):
 
         return "".join(result)
 
-    def _print_And(self, expr):
-        if len(expr.args) == 2:
-            value = f"numpy.logical_and({self._print(expr.args[0])}, {self._print(expr.args[1])})"
-        else:
-            args = ", ".join(self._print(arg) for arg in expr.args)
-            value = f"numpy.logical_and.reduce(({args}))"
+    def _print_nested(self, func: str, expr) -> str:
+        # numpy.logical_and / numpy.logical_or only take two operands.
+        # Nest them, since the reduce method needs the operands to have the
+        # same shape (which fails when mixing scalars and arrays) and is
+        # not supported by jax.numpy for a tuple of operands
+        return reduce(
+            lambda acc, arg: f"{func}({acc}, {arg})",
+            [self._print(arg) for arg in expr.args],
+        )
 
-        return value
+    def _print_And(self, expr):
+        return self._print_nested("numpy.logical_and", expr)
 
     def _print_Or(self, expr):
-        # value = super()._print_Or(expr)
-        if len(expr.args) == 2:
-            value = f"numpy.logical_or({self._print(expr.args[0])}, {self._print(expr.args[1])})"
-        else:
-            args = ", ".join(self._print(arg) for arg in expr.args)
-            value = f"numpy.logical_or.reduce(({args}))"
-
-        return value
+        return self._print_nested("numpy.logical_or", expr)
 
     # def _print_Equality(self, expr):
     #     lhs, rhs = expr.args
